@@ -125,20 +125,32 @@ def run_driver(lines):
         raise LeanError('driver produced %d lines for %d ops (rc=%d) %s' % (len(out), len(lines), r.returncode, r.stderr[-500:]))
     return out
 
-def run_impl(meta, variant, lines, timeout=1200):
+def run_impl(meta, variant, lines, timeout=1200, op_timeout=None):
     """run the harness of a build variant; a process abort (sanitizer report, crash outside an op)
-    is turned into result lines: the op at which it died gets 'abort <reason>', later ops 'not-run'"""
+    is turned into result lines: the op at which it died gets 'abort <reason>', later ops 'not-run';
+    a run that does not finish within `timeout` seconds gets 'hang ...' at the op it was executing"""
     v = meta[variant]
     env = dict(os.environ); env.update(v.get('env', {}))
-    r = subprocess.run([v['exe'], meta['layout']], input='\n'.join(lines) + '\n', stdout=subprocess.PIPE,
-                       stderr=subprocess.PIPE, text=True, env=env, timeout=timeout)
-    out = r.stdout.split('\n')
+    p = subprocess.Popen([v['exe'], meta['layout']], stdin=subprocess.PIPE, stdout=subprocess.PIPE, stderr=subprocess.PIPE, text=True, env=env)
+    hung = False
+    try:
+        so, se = p.communicate('\n'.join(lines) + '\n', timeout=timeout)
+    except subprocess.TimeoutExpired:
+        hung = True
+        p.kill()
+        # children of the forking harness may still hold the pipes: kill the process group members we can see
+        subprocess.run(['pkill', '-9', '-P', str(p.pid)], stdout=subprocess.DEVNULL, stderr=subprocess.DEVNULL)
+        try: so, se = p.communicate(timeout=10)
+        except Exception: so, se = '', ''
+    out = (so or '').split('\n')
     if out and out[-1] == '': out.pop()
     if len(out) < len(lines):
-        reason = 'rc=%d' % r.returncode
-        m = re.search(r'(ERROR: AddressSanitizer: [\w-]+|runtime error: [^\n]*|ERROR: \w+Sanitizer[^\n]*)', r.stderr)
-        if m: reason = m.group(1).replace(' ', '_')
-        out = out + ['abort ' + reason] + ['not-run'] * (len(lines) - len(out) - 1)
+        if hung: reason = 'hang no-result-within-%ds' % timeout
+        else:
+            reason = 'abort rc=%d' % p.returncode
+            m = re.search(r'(ERROR: AddressSanitizer: [\w-]+|runtime error: [^\n]*|ERROR: \w+Sanitizer[^\n]*)', se or '')
+            if m: reason = 'abort ' + m.group(1).replace(' ', '_')
+        out = out + [reason] + ['not-run'] * (len(lines) - len(out) - 1)
     return out[:len(lines)]
 
 def parallel_map(fn, chunks, workers=16):
